@@ -24,6 +24,10 @@ fixed("C29","7a7f54a","name function wrong-name | after {SetFnName.0} @named-all
 
 fixed("C06","ca8bc01","site code.* missing | after {DeleteFunc, InjectFn.*.modifier-fn-entry} @*","function-entry (and every other special-mode) code on the first local functions was silently dropped after an imported function had been deleted: the resolution walk started at a counter that still included the deleted import (witness [DeleteFunc(fspare), InjectFn(func_entry on $l0)] on fn-min)")
 
+fixed("C24","457c7aa","wrong-instruction block","block/loop_stmt/if_stmt helpers (and add_global) given DataType::FuncRef / ExternRef - the non-null (ref func) / (ref extern) - emitted the nullable funcref / externref: the wasmparser-direction conversion of DataType mapped them to ValType::FUNCREF / EXTERNREF (found when the block-type domain of C24 was widened to every value type)")
+fixed("C24","457c7aa","wrong-instruction loop_stmt","see wrong-instruction block")
+fixed("C24","457c7aa","wrong-instruction if_stmt","see wrong-instruction block")
+
 # ---- open findings ------------------------------------------------------------------------------
 for opk,ex in [("AddImportFunc","[AddImportFunc]"),("DeleteFunc","[DeleteFunc(spare)]"),("LocalToImport","[LocalToImport(1)]"),("ImportToLocal","[ImportToLocal(0)]"),
                ("AddImportedGlobal","[AddImportedGlobal]"),("DeleteGlobal","[DeleteGlobal(spare)]"),("AddImportMem","[AddImportMem]"),("DeleteMem","[DeleteMem(spare)]")]:
